@@ -172,3 +172,89 @@ Proof.
     + rewrite (del_key_absent n_rules props R). fin FIN WRAP U.
 Qed.
 Print Assumptions from_json_eq.
+
+(* ---------- Policy._data ---------- *)
+From Vakt Require Import Proofs.PolicyP Proofs.PolicyJsonP.
+
+Lemma lookup_app {A} k (p q : list (pstr * A)) :
+  lookup k (p ++ q) = match lookup k p with Some v => Some v | None => lookup k q end.
+Proof. induction p as [|[k' a] r IH]; [reflexivity|]. cbn. destruct (pstr_eqb k k'); [reflexivity|exact IH]. Qed.
+
+Lemma distinct_mid_absent {A} (pre : list (pstr * A)) k a r :
+  keys_distinct (pre ++ (k, a) :: r) = true -> lookup k pre = None.
+Proof.
+  induction pre as [|[k' a'] p IH]; [reflexivity|]. cbn [app keys_distinct]. intros H.
+  apply andb_true_iff in H as [H1 H2]. cbn [lookup].
+  destruct (pstr_eqb k k') eqn:E; [|exact (IH H2)].
+  apply PyValP.pstr_eqb_eq in E. subst k'. unfold has_key in H1. rewrite lookup_app in H1.
+  destruct (lookup k p); [discriminate H1|]. cbn [lookup] in H1. rewrite PyValP.pstr_eqb_refl in H1. discriminate H1.
+Qed.
+
+Lemma set_attr_mid (pre : pstate) k v a r :
+  lookup k pre = None -> set_attr k v (pre ++ (k, a) :: r) = pre ++ (k, v) :: r.
+Proof.
+  induction pre as [|[k' a'] p IH]; intros H.
+  - cbn. rewrite PyValP.pstr_eqb_refl. reflexivity.
+  - cbn [lookup] in H. cbn [app set_attr]. destruct (pstr_eqb k k'); [discriminate H|]. rewrite (IH H). reflexivity.
+Qed.
+
+Lemma data_of_app p q : data_of (p ++ q) = data_of p ++ data_of q.
+Proof. unfold data_of. apply map_app. Qed.
+
+Lemma flat_not_tuple a :
+  match a with ASeq true _ => true | AV (VTup _) => true | _ => false end = false -> flat a = a.
+Proof. destruct a as [[]|[]|]; try reflexivity; discriminate. Qed.
+
+(* the loop: the items not yet visited are as they were, the visited ones are written *)
+Lemma data_loop xs : forall pre k0 p0, keys_distinct (pre ++ xs) = true ->
+  exists k1 p1,
+    for_each xs {| pd_data := data_of pre ++ xs; pd_k := k0; pd_prop := p0 |}
+      (fun '(k_, prop_) st =>
+         let st := {| pd_data := pd_data st; pd_k := k_; pd_prop := pd_prop st |} in
+         let st := {| pd_data := pd_data st; pd_k := pd_k st; pd_prop := prop_ |} in
+         if match pd_prop st with ASeq true _ => true | AV (VTup _) => true | _ => false end
+         then let st := {| pd_data := set_attr (pd_k st) (flat (pd_prop st)) (pd_data st); pd_k := pd_k st;
+                           pd_prop := pd_prop st |} in Ok (Normal st)
+         else Ok (Normal st))
+    = (Ok (Normal {| pd_data := data_of (pre ++ xs); pd_k := k1; pd_prop := p1 |})
+       : res (ctl data_g_st (data_g_st * pstate))).
+Proof.
+  induction xs as [|[k a] r IH]; intros pre k0 p0 H.
+  - exists k0, p0. cbn [for_each]. rewrite !app_nil_r. reflexivity.
+  - assert (Hk : lookup k (data_of pre) = None).
+    { rewrite lookup_data_of, (distinct_mid_absent pre k a r H). reflexivity. }
+    assert (H' : keys_distinct ((pre ++ [(k, a)]) ++ r) = true) by (rewrite <- app_assoc; exact H).
+    assert (E : data_of (pre ++ (k, a) :: r) = data_of ((pre ++ [(k, a)]) ++ r)) by (rewrite <- app_assoc; reflexivity).
+    cbn [for_each pd_data pd_k pd_prop].
+    destruct (match a with ASeq true _ => true | AV (VTup _) => true | _ => false end) eqn:T.
+    + rewrite (set_attr_mid (data_of pre) k (flat a) a r Hk).
+      destruct (IH (pre ++ [(k, a)]) k a H') as [k1 [p1 L]]. exists k1, p1. rewrite E, <- L.
+      rewrite data_of_app. cbn [data_of map fst snd]. rewrite <- app_assoc. reflexivity.
+    + destruct (IH (pre ++ [(k, a)]) k a H') as [k1 [p1 L]]. exists k1, p1. rewrite E, <- L.
+      rewrite data_of_app. cbn [data_of map fst snd]. rewrite (flat_not_tuple a T), <- app_assoc. reflexivity.
+Qed.
+
+(* the generated Policy._data is data_of (the instance dictionary has distinct keys) *)
+Lemma data_eq s : keys_distinct s = true -> PolicyG.data_g s = Ok (data_of s).
+Proof.
+  intros H. destruct (data_loop s [] [] (AV VNone) H) as [k1 [p1 L]]. cbn [app data_of map] in L.
+  unfold PolicyG.data_g. cbn [seqc pd_data pd_k pd_prop].
+  match goal with
+  | |- context [for_each ?xs ?st ?b] =>
+      replace (for_each xs st b)
+        with (Ok (Normal {| pd_data := data_of s; pd_k := k1; pd_prop := p1 |})
+              : res (ctl data_g_st (data_g_st * pstate))) by (symmetry; exact L)
+  end.
+  reflexivity.
+Qed.
+Print Assumptions data_eq.
+
+(* a constructed policy, written by the generated _data and read by the generated from_json *)
+Lemma written_then_read_generated a s : ctor a = Ok s ->
+  (d <- PolicyG.data_g s ;; PolicyG.from_json_g d) = Ok (data_of s).
+Proof.
+  intros H. assert (K : keys_distinct s = true).
+  { rewrite ctor_is_core in H. destruct (ctor_core_shape _ _ _ _ _ _ _ _ H) as [t [-> _]]. reflexivity. }
+  rewrite (data_eq s K). cbn [bind]. rewrite from_json_eq. exact (written_then_read a s H).
+Qed.
+Print Assumptions written_then_read_generated.
